@@ -251,15 +251,21 @@ CLAIMED = {
          "every such run, for every line f, #attempts(f) <= 1 + #distinct lines f was registered to wait for + #answered prompts that named f "
          "as waiting + #input names whose specification was loaded (a retry inside one attempt follows the loading of a new form's input "
          "specifications) - a counting invariant (attempts + live tokens <= credits) carried through the same control-flow induction. "
-         "Tie: tracker histories (random + all short ones) and solver traces (attempt events included) executed on model and real code. "
-         "Termination itself (that some fuel suffices) is decided by the monitor on the real solver under an attempt budget, which also "
-         "re-checks the numeric bound on real forms, and a real-form monitor checks that no line is left waiting on a dependency that holds "
-         "a value - stated as partial.",
+         "TERMINATION is a theorem as well (SolverTerm.v): for a catalogue whose lines, inputs and forms lie in finite lists UL, UI, UF, every "
+         "state any run passes through has logged at most BOUND = |UL|(1+|UI|) + |UL|^2 + |UL||UI| + |UI| events (C06_total_work_bounded: the "
+         "per-line bound summed over the lines being solved, with |edges| <= |UL|^2 by the no-repeated-wait theorem, at most |UI| prompts each "
+         "naming at most |UL| lines); every pop of the queue logs an event and every pass of the main loop logs an event or is the single pass "
+         "that only clears the met list; a retry inside an attempt loads the input specifications of a not-yet-loaded form; hence with fuel > "
+         "2*BOUND+1 and fewer forms than the retry limit the model never stops for lack of fuel (C06_terminates) - cyclic and self-referential "
+         "definitions, unknown names and a user who stops answering included. "
+         "Tie: tracker histories (random + all short ones) and solver traces (attempt events included) executed on model and real code; the "
+         "monitor on the real solver keeps a step budget and re-checks the numeric bound on real forms, and a real-form monitor checks that "
+         "no line is left waiting on a dependency that holds a value.",
     design_ref='DESIGN.md §4 C06',
-    note="Trusted as for C01. Termination itself (a fuel bound) is observed, not proved (partial): the proved bound on attempts per line "
-         "makes the total work finite in the size of the catalogue, but the statement 'main_loop returns within N iterations' is not a theorem; "
-         "wall-clock and recursion depth are runtime. The theorems of SolverWaits.v / SolverCount.v assume NoDup of the requested forms and no "
-         "individually requested lines.",
+    note="Trusted as for C01. The termination theorem is about the model (a fuelled transcription of the while loops; fuel is not a bound in the "
+         "real code): it transfers to solver.py through the trace correspondence, which is sampled. Wall-clock and recursion depth are runtime. "
+         "The theorems of SolverWaits.v / SolverCount.v / SolverTerm.v assume NoDup of the requested forms and no individually requested lines; "
+         "the retry limit of the model (64 nested specification loads in one attempt) exceeds the number of forms of every shipped year.",
     technique='Rocq refinement proof of the tracker (Permutation accounting) + invariant on the prompt transcript; correspondence; budgeted monitor',
  ),
  'C13': dict(
